@@ -134,3 +134,80 @@ Example C01_demo_concurrent :
   | None => False
   end.
 Proof. vm_compute. tauto. Qed.
+
+(* ====================== product-level termination and the composed C01_complete (builder sv; appended, nothing above
+   was touched). Proofs in the new files Proofs/SysTerm.v, Proofs/ClientWcap.v, Proofs/ServerWrites.v. ======================
+   The CLOSED system of the product: internal rules of the client and of the server, the two wire transfers, and returns
+   of handlers from their bodies ([sys_closed_at]; runs: [sys_crun]). No user action, no fault, no cancellation. *)
+From Goat Require Proofs.ClientTerm Proofs.ServerTerm Proofs.ServerClosed Proofs.ClientWcap Proofs.ServerWrites Proofs.SysTerm.
+
+(* (T) every closed step from a reachable state of the product strictly decreases one weighted sum:
+   mu (client, C09_measure) + 201 * wcap (the envelopes the client's calls can still write) + 10 * measure (server,
+   C10_measure) + 201 per envelope in flight to the server + 9 per envelope in flight to the client *)
+Theorem Sys_measure : forall pol ls s l s', Sys.lrun pol Sys.init ls = Some s ->
+  SysTerm.sys_closed_at s l = true -> Sys.lstep pol s l = Some s' ->
+  (SysTerm.sys_measure s' < SysTerm.sys_measure s)%nat.
+Proof. exact SysTerm.sys_closed_step. Qed.
+Print Assumptions Sys_measure.
+
+(* ... so every closed continuation of a reachable state is at most [sys_measure s] steps long (no live-lock between the
+   components: no ping-pong over the wires goes on for ever), under ANY handler policy *)
+Theorem Sys_closed_terminates : forall pol ls s, Sys.lrun pol Sys.init ls = Some s ->
+  forall ls' s', SysTerm.sys_crun pol s ls' = Some s' -> (length ls' + SysTerm.sys_measure s' <= SysTerm.sys_measure s)%nat.
+Proof. exact SysTerm.Sys_closed_terminates_l. Qed.
+Print Assumptions Sys_closed_terminates.
+
+(* ... and it can always be extended to a state in which NO closed step is enabled, which is exactly [Sys.quiescent]: both
+   components quiescent, both wires empty, no handler left in its body - provided the policy lets a handler in its body
+   return somehow ([pol_returns]: true of pol_any and of pol_c01 f) *)
+Theorem Sys_closed_reaches_final : forall pol ls s, SysTerm.pol_returns pol -> Sys.lrun pol Sys.init ls = Some s ->
+  exists ls' s', SysTerm.sys_crun pol s ls' = Some s' /\ Sys.quiescent s' = true.
+Proof. exact SysTerm.Sys_closed_reaches_final_l. Qed.
+Print Assumptions Sys_closed_reaches_final.
+
+Theorem Sys_final_iff_quiescent : forall pol s, SysTerm.pol_returns pol ->
+  (Sys.quiescent s = true <-> forall l, SysTerm.sys_closed_at s l = true -> Sys.lstep pol s l = None).
+Proof. exact SysTerm.final_iff_quiescent. Qed.
+Print Assumptions Sys_final_iff_quiescent.
+
+(* C01 completeness, composed: no quiescence hypothesis left to the reader. From every state reached without faults and
+   without cancellation, EVERY closed continuation that ends where no closed step is enabled (it exists and is reached
+   within [sys_measure s] steps: the two theorems above) ends with every call - all unary, none held by the environment at
+   its yield point, payloads non-negative - returned OK with f of its own request. *)
+Theorem C01_complete_closed : forall f ls s ls' s',
+  (forall x, 0 <= x -> 0 <= f x) ->
+  Sys.lrun (pol_c01 f) Sys.init ls = Some s -> fault_free ls = true -> no_cancel ls = true ->
+  SysTerm.sys_crun (pol_c01 f) s ls' = Some s' ->
+  (forall l, SysTerm.sys_closed_at s' l = true -> Sys.lstep (pol_c01 f) s' l = None) ->
+  (forall c k, nth_error (calls (cl s')) c = Some k -> k_unary k = true /\ k_pc k <> PParked /\ 0 <= k_payload k) ->
+  forall c k, nth_error (calls (cl s')) c = Some k -> In (EvUnaryRet c (UOk (f (k_payload k)))) (Client.log (cl s')).
+Proof.
+  intros f ls s ls' s' Hf H FF NC Hr Hfin Hcalls.
+  destruct (SysTerm.sys_crun_fault_free _ _ _ _ Hr) as [F2 N2].
+  apply (SysC01f.C01_complete_ok f (ls ++ ls') s' Hf).
+  - rewrite SysTerm.sys_lrun_app, H. now apply SysTerm.sys_crun_lrun.
+  - unfold fault_free in *. now rewrite forallb_app, FF, F2.
+  - unfold no_cancel in *. now rewrite forallb_app, NC, N2.
+  - apply (SysTerm.final_iff_quiescent (pol_c01 f) s' (SysTerm.pol_c01_returns f)). exact Hfin.
+  - exact Hcalls.
+Qed.
+Print Assumptions C01_complete_closed.
+
+(* non-vacuity: three calls started at once (demo_c01_concurrent's user actions only), then the closed system alone: it
+   runs to a quiescent state in which each call has returned mix3 of its own payload *)
+Definition start3 : list Sys.label :=
+  [LC (Client.LExt (Client.ANewUnary 5 false)); LC (Client.LExt (Client.ANewUnary 7 false)); LC (Client.LExt (Client.ANewUnary 0 false))].
+Example C01_complete_closed_ex :
+  match Sys.lrun (pol_c01 mix3) Sys.init start3 with
+  | Some s =>
+      let ls' := drive 400 (pol_c01 mix3) mix3 s in
+      match SysTerm.sys_crun (pol_c01 mix3) s ls' with
+      | Some s' => Sys.quiescent s = false /\ Sys.quiescent s' = true /\ fault_free start3 = true /\ no_cancel start3 = true
+                   /\ Nat.leb 20 (length ls') = true /\ Nat.leb (length ls') (SysTerm.sys_measure s) = true
+                   /\ In (EvUnaryRet 0 (UOk (mix3 5))) (Client.log (cl s')) /\ In (EvUnaryRet 1 (UOk (mix3 7))) (Client.log (cl s'))
+                   /\ In (EvUnaryRet 2 (UOk (mix3 0))) (Client.log (cl s'))
+      | None => False
+      end
+  | None => False
+  end.
+Proof. vm_compute. intuition. Qed.
